@@ -9,7 +9,9 @@ ok, msg = core.build_harness()
 if not ok:
     print(msg)
     sys.exit(1)
-ok, msg = core.build_lean(("BB", "bbdriver"))
+import glob
+props = sorted("BB.Props." + os.path.basename(f)[:-5] for f in glob.glob(os.path.join(core.LEAN, "BB", "Props", "*.lean")))
+ok, msg = core.build_lean(tuple(["BB", "bbdriver"] + props))
 if not ok:
     print(msg)
     sys.exit(1)
